@@ -11,7 +11,8 @@ FAMILY = ('mul', 'mla', 'mls', 'umull', 'umlal', 'smull', 'smlal', 'umaal', 'sml
 RULE = ('case = (word generated from one reference row of the ~110 multiply/divide/saturating/parallel/extend/bit-field/'
         'reversal encodings A1/T1/T2 with all parameter fields random or at corners, random valid state with operands '
         'from a lane-boundary pool: 0x7F/0x80/0xFF bytes, 0x7FFF/0x8000 halfwords, products hitting 2^32 / 2^64, '
-        'INT_MIN/-1, divisor 0, prior Q and GE random); full-state comparison; non-trivial = destination or Q/GE changed; '
+        'INT_MIN/-1, divisor 0, prior Q and GE random; for 30% of the multiply-accumulate cases the accumulator is solved '
+        'so that the result is 0 / 2^31 / 2^32 / 2^63 / all ones); full-state comparison; non-trivial = destination or Q/GE changed; '
         'distinct = (row, IT position, configuration)')
 ASSUMPTIONS = ['vf/ref/sem_dp.py transcribes the A8 pseudocode of these instructions',
                'SDIV/UDIV by zero with the ARMv7-R DZ trap enabled is not judged']
@@ -44,12 +45,56 @@ def regs(rng):
     return out
 
 
+def after(ctx, rng, desc):
+    """for a share of the multiply-accumulate cases the accumulator is chosen so that the RESULT lands on a boundary
+    (0, 2^31, 2^32, 2^63, all ones: a sum that wraps to exactly zero, crosses the sign bit, carries out of the low word):
+    one reference step gives result - accumulator, the accumulator is then replaced by target - that"""
+    if rng.random() > 0.3:
+        return
+    from vf import observe
+    from vf.ref import step as RS
+    cpu = ctx.cpu
+    verdict, ref, info = RS.step(observe.snapshot(cpu), ctx.cfg)
+    ops = info.get('ops') or {}
+    if verdict != 'ok' or not info.get('cond_passed') or 'umaal' in (info.get('row') or ''):
+        return
+    r = cpu.registers
+    try:
+        if 'd_lo' in ops and 'd_hi' in ops:
+            lo, hi = int(ops['d_lo']), int(ops['d_hi'])
+            if {lo, hi} & {int(ops.get('n', -1)), int(ops.get('m', -2))} or lo == hi or 15 in (lo, hi):
+                return
+            acc = (r.get(hi) << 32) | r.get(lo)
+            res = (ref.R(hi) << 32) | ref.R(lo)
+            target = rng.choice([0, 0, 1 << 63, (1 << 63) - 1, (1 << 64) - 1, 1 << 32, (1 << 32) - 1, 1])
+            new = (target - (res - acc)) & ((1 << 64) - 1)
+            r.set(hi, new >> 32)
+            r.set(lo, new & 0xFFFFFFFF)
+            desc['regs'][hi] = '%#x' % (new >> 32)
+            desc['regs'][lo] = '%#x' % (new & 0xFFFFFFFF)
+        elif 'a' in ops and 'd' in ops:
+            a, d = int(ops['a']), int(ops['d'])
+            if a in (int(ops.get('n', -1)), int(ops.get('m', -2))) or a == 15 or d == 15:
+                return
+            acc = r.get(a)
+            res = ref.R(d)
+            target = rng.choice([0, 0, 1 << 31, (1 << 31) - 1, 0xFFFFFFFF, 1])
+            new = (target - (res - acc)) & 0xFFFFFFFF
+            r.set(a, new)
+            desc['regs'][a] = '%#x' % new
+        else:
+            return
+    except (KeyError, ValueError, TypeError, IndexError):
+        return
+    desc['accumulator_solved_for'] = '%#x' % target
+
+
 def plan(tier, seed):
     return L.plan_rows(ID, FAMILY, tier, seed, 260, 14000)
 
 
 def run_shard(spec):
-    return L.run_rows(ID, spec, FAMILY, regs_fn=regs)
+    return L.run_rows(ID, spec, FAMILY, regs_fn=regs, after=after)
 
 
 def replay(data):
